@@ -75,7 +75,7 @@ class C09(object):
     assumptions = ['admissible parameters keep the portfolio share inside (0,1) and wealth positive',
                    'REG/REG2/OPENG are not claimed by the property']
     required_counters = ('SIM.judged', 'SIMEX1.judged', 'PC.judged', 'iterative.judged', 'exact_equalities.judged',
-                         'offgrid.judged', 'nonzero_initial_stocks.judged')
+                         'offgrid.judged', 'nonzero_initial_stocks.judged', 'PAIR.judged', 'book_exogenous_overwritten.cases')
 
     def n_cases(self, tier):
         return 60 if tier == 'quick' else 6000
@@ -92,61 +92,144 @@ class C09(object):
         G = [float(rng.randint(5, 40)) if rng.random() < 0.7 else rng.uniform(5, 40) for _ in range(T + 3)]
         r = [rng.choice([0.0, 0.01, 0.025, 0.04, 0.05]) if rng.random() < 0.7 else rng.uniform(0, 0.05)
              for _ in range(T + 3)]
-        which = ['SIM', 'SIMEX1', 'PC', 'PC', 'ITER_step', 'ITER_m2'][idx % 6]
+        which = ['SIM', 'SIMEX1', 'PC', 'PC', 'ITER_step', 'ITER_m2', 'PAIR'][idx % 7]
         stocks = rng.random() < 0.6
         V0 = float(rng.randint(20, 120)) if stocks else 0.0
         if which == 'PC':
             V0 = float(rng.randint(40, 120))
         case = {'kind': which, 'p': p, 'G': G, 'r': r, 'T': T, 'V0': V0, 'grid': grid,
-                'YD0': float(rng.randint(5, 30))}
+                'YD0': float(rng.randint(5, 30)),
+                # build with the book's own exogenous paths first and then overwrite them (AddExogenous: "Overwrites
+                # an existing variable definition")
+                'book_first': rng.random() < 0.4}
+        if which == 'PAIR':
+            case['T'] = min(T, 10)
+            case['members'] = []
+            for code in ('A', 'B'):
+                pp = {'a1': par(0.3, 0.95), 'a2': par(0.05, 0.6), 'th': par(0.05, 0.5),
+                      'l0': par(0.4, 0.8), 'l1': par(0.0, 5.0), 'l2': par(0.0, 0.05)}
+                case['members'].append({'code': code, 'which': rng.choice(['SIM', 'SIMEX1', 'PC']), 'p': pp,
+                                        'G': [float(rng.randint(5, 40)) for _ in range(T + 3)],
+                                        'r': [rng.choice([0.0, 0.01, 0.025, 0.04]) for _ in range(T + 3)],
+                                        'V0': float(rng.randint(40, 120)), 'YD0': float(rng.randint(5, 30))})
+            case['interleave_model'] = rng.random() < 0.6
         if which == 'ITER_m2':
             p['a1'] = min(p['a1'], 0.8)
             case['T'] = min(T, 12)
         return case
 
     # ------------------------------------------------------------------------------------------
-    def run_case(self, case):
-        if case['kind'].startswith('ITER'):
-            return self.run_iterative(case)
-        from vf import ambient
-        rec = monitors.Recorder()
-        p, T = case['p'], case['T']
-        which = case['kind']
-        b = ambient.book_builders()[which](country_code='C1', use_book_exogenous=False)
-        mod = b.build_model()
+    def configure(self, b, mod, which, p, G, r, V0, YD0, T, prefix=''):
+        """Set parameters/paths/initial stocks of one book economy through the public API; returns
+        (closed form, {symbol: series name})."""
         c = b.Country
         hh = c['HH']
         hh.AlphaIncome = p['a1']
         hh.AlphaFin = p['a2']
         c['TF'].TaxRate = p['th']
+        names = {'Y': prefix + 'GOOD__SUP_GOOD', 'YD': prefix + 'HH__AfterTax', 'C': prefix + 'HH__DEM_GOOD'}
+        if which == 'PC':
+            c['TRE'].SetExogenous('DEM_GOOD', list(G))
+            c['DEP'].SetExogenous('r', list(r))
+            hh.SetEquationRightHandSide('L0', repr(p['l0']))
+            hh.SetEquationRightHandSide('L1', repr(p['l1']))
+            hh.SetEquationRightHandSide('L2', repr(p['l2']))
+            B0 = V0 * (p['l0'] + p['l1'] * r[0]) - p['l2'] * YD0
+            B0 = float(min(max(B0, 0.1 * V0), 0.9 * V0))
+            for role, var, val in (('HH', 'F', V0), ('HH', 'DEM_DEP', B0), ('HH', 'DEM_MON', V0 - B0),
+                                   ('TRE', 'F', -V0), ('TRE', 'SUP_DEP', V0), ('CB', 'DEM_DEP', V0 - B0),
+                                   ('HH', 'AfterTax', YD0)):
+                c[role].AddInitialCondition(var, val)
+            cf = closed_pc(p, G, r, V0, B0, T)
+            names.update({'T': prefix + 'TRE__T', 'V': prefix + 'HH__F', 'B': prefix + 'HH__DEM_DEP',
+                          'H': prefix + 'HH__DEM_MON'})
+        else:
+            c['GOV'].SetExogenous('DEM_GOOD', list(G))
+            if V0:
+                c['HH'].AddInitialCondition('F', V0)
+                c['GOV'].AddInitialCondition('F', -V0)
+            if which == 'SIMEX1':
+                c['HH'].AddInitialCondition('AfterTax', YD0)
+            cf = closed_sim(p, G, V0, T, expectations=(which == 'SIMEX1'), YD0=YD0)
+            names.update({'T': prefix + 'GOV__T', 'H': prefix + 'HH__F'})
+        return cf, names
+
+    def compare(self, rec, V, cf, names, T, ctx):
+        worst = 0.0
+        for key, name in names.items():
+            if name not in V:
+                rec.violate('expected_series_missing', dict(ctx, series=name))
+                continue
+            for k in range(1, T + 1):
+                exp = cf[key][k]
+                got = V[name][k]
+                d = abs(got - float(exp)) / max(1.0, abs(float(exp)))
+                worst = max(worst, d)
+                if not d <= 1e-6:
+                    rec.violate('series_differs_from_book_recursion',
+                                dict(ctx, series=name, symbol=key, k=k, model_value=got, closed_form=float(exp)))
+                    break
+        return worst
+
+    def run_pair(self, case):
+        """Two book economies with different parameters in ONE model (optionally with an unrelated Model() created
+        in between): each must follow its own closed form."""
+        from vf import ambient
+        from sfc_models.models import Model
+        rec = monitors.Recorder()
+        T = case['T']
+        big = Model()
+        members = []
+        for i, m in enumerate(case['members']):
+            if i and case.get('interleave_model'):
+                Model()
+            b = ambient.book_builders()[m['which']](country_code=m['code'], model=big, use_book_exogenous=False)
+            b.build_model()
+            members.append((m, b))
+        cfs = []
+        for m, b in members:
+            cfs.append(self.configure(b, big, m['which'], m['p'], m['G'], m['r'], m['V0'], m['YD0'], T,
+                                      prefix=m['code'] + '_'))
+        big.MaxTime = T
+        big.EquationSolver.MaxIterations = 5000
+        big.EquationSolver.ParameterErrorTolerance = 1e-10
+        try:
+            with contextlib.redirect_stdout(io.StringIO()):
+                big.main()
+        except Exception as e:
+            rec.violate('two_book_economies_in_one_model_fail', {'members': [m['which'] for m, _ in members],
+                                                                 'err': repr(e)[:300]})
+            return {'verdict': 'violated', 'shape': 'PAIR', 'counters': rec.counters, 'violations': rec.violations}
+        V = big.EquationSolver.TimeSeries
+        rec.count('PAIR.judged')
+        worst = 0.0
+        for (m, b), (cf, names) in zip(members, cfs):
+            worst = max(worst, self.compare(rec, V, cf, names, T, {'model': m['which'], 'country': m['code'],
+                                                                   'params': m['p']}))
+        return {'verdict': 'violated' if rec.violations else 'held', 'nontrivial': True,
+                'shape': 'PAIR|' + '+'.join(m['which'] for m, _ in members), 'counters': rec.counters,
+                'violations': rec.violations[:3], 'obs': {'members': [m['which'] for m, _ in members], 'T': T,
+                                                          'worst_rel': worst},
+                'worst': {'rel_vs_closed_form': worst}}
+
+    def run_case(self, case):
+        if case['kind'].startswith('ITER'):
+            return self.run_iterative(case)
+        if case['kind'] == 'PAIR':
+            return self.run_pair(case)
+        from vf import ambient
+        rec = monitors.Recorder()
+        p, T = case['p'], case['T']
+        which = case['kind']
+        b = ambient.book_builders()[which](country_code='C1', use_book_exogenous=bool(case.get('book_first')))
+        mod = b.build_model()
         mod.MaxTime = T
         mod.EquationSolver.MaxIterations = 5000
         mod.EquationSolver.ParameterErrorTolerance = 1e-10
         V0 = case['V0']
-        names = {'Y': 'GOOD__SUP_GOOD', 'YD': 'HH__AfterTax', 'C': 'HH__DEM_GOOD'}
-        if which == 'PC':
-            c['TRE'].SetExogenous('DEM_GOOD', list(case['G']))
-            c['DEP'].SetExogenous('r', list(case['r']))
-            hh.SetEquationRightHandSide('L0', repr(p['l0']))
-            hh.SetEquationRightHandSide('L1', repr(p['l1']))
-            hh.SetEquationRightHandSide('L2', repr(p['l2']))
-            B0 = V0 * (p['l0'] + p['l1'] * case['r'][0]) - p['l2'] * case['YD0']
-            B0 = float(min(max(B0, 0.1 * V0), 0.9 * V0))
-            for sec, var, val in (('HH', 'F', V0), ('HH', 'DEM_DEP', B0), ('HH', 'DEM_MON', V0 - B0),
-                                  ('TRE', 'F', -V0), ('TRE', 'SUP_DEP', V0), ('CB', 'DEM_DEP', V0 - B0),
-                                  ('HH', 'AfterTax', case['YD0'])):
-                mod.AddInitialCondition(sec, var, val)
-            cf = closed_pc(p, case['G'], case['r'], V0, B0, T)
-            names.update({'T': 'TRE__T', 'V': 'HH__F', 'B': 'HH__DEM_DEP', 'H': 'HH__DEM_MON'})
-        else:
-            c['GOV'].SetExogenous('DEM_GOOD', list(case['G']))
-            if V0:
-                mod.AddInitialCondition('HH', 'F', V0)
-                mod.AddInitialCondition('GOV', 'F', -V0)
-            if which == 'SIMEX1':
-                mod.AddInitialCondition('HH', 'AfterTax', case['YD0'])
-            cf = closed_sim(p, case['G'], V0, T, expectations=(which == 'SIMEX1'), YD0=case['YD0'])
-            names.update({'T': 'GOV__T', 'H': 'HH__F'})
+        cf, names = self.configure(b, mod, which, p, case['G'], case['r'], V0, case['YD0'], T)
+        if case.get('book_first'):
+            rec.count('book_exogenous_overwritten.cases')
         try:
             with contextlib.redirect_stdout(io.StringIO()):
                 mod.main()
@@ -158,21 +241,8 @@ class C09(object):
             rec.count('offgrid.judged')
         if V0:
             rec.count('nonzero_initial_stocks.judged')
-        worst = 0.0
-        for key, name in names.items():
-            if name not in V:
-                rec.violate('expected_series_missing', {'series': name})
-                continue
-            for k in range(1, T + 1):
-                exp = cf[key][k]
-                got = V[name][k]
-                d = abs(got - float(exp)) / max(1.0, abs(float(exp)))
-                worst = max(worst, d)
-                if not d <= 1e-6:
-                    rec.violate('series_differs_from_book_recursion',
-                                {'model': which, 'series': name, 'symbol': key, 'k': k, 'model_value': got,
-                                 'closed_form': float(exp), 'params': p, 'V0': V0})
-                    break
+        worst = self.compare(rec, V, cf, names, T, {'model': which, 'params': p, 'V0': V0,
+                                                    'book_exogenous_first': bool(case.get('book_first'))})
         if which != 'PC' and not rec.violations:
             try:
                 E = Q.qsolve(mod.FinalEquations, V)
